@@ -290,7 +290,7 @@ def gen_generic_sheet(rng):
         lays = []
         for _ in range(10):
             try:
-                lays.append(c09.encode_row(rng, t, val)[0])
+                lays.append(c09.encode_row(rng, t, val, lenient=0.3)[0])
             except c09.NoEncoding:
                 continue
             if len(lays) == 3:
@@ -365,7 +365,7 @@ def gen_flow_sheet(rng, desc, cx):
             if has_int_list:
                 break
             try:
-                lays.append(c09.encode_flow(rng, desc, cx, val)[0])
+                lays.append(c09.encode_flow(rng, desc, cx, val, lenient=0.3)[0])
             except c09.NoEncoding:
                 continue
             if len(lays) == 3:
